@@ -313,6 +313,10 @@ def hEvent (e : HEnv) (st : HState) (ev : String) : HState := Id.run do
     s := { s with notifyDebt := false }
   | _ => issues := issues ++ [s!"bad-event {head}"]
   -- notify accounting (C13): the model predicts every notify call
+  -- C13, last sentence: a push / extend (also one that was paused inside its fill callback) calls notify after its items
+  -- became visible; `nf` counts the calls from before the operation (or the writer's release) to its return
+  if (["push", "oldpush", "publish"].contains (a.headD "") || (["extend", "oldextend"].contains (a.headD "") && a.getD 2 "" ≠ "-")) && nf = 0 then
+    issues := issues ++ [s!"ORACLE C13 {cmd} returned without a notify call after its item(s) became visible"]
   if let some x := expectNf then
     if nf ≠ x then issues := issues ++ [s!"DIFF notify calls during {cmd}: model {x} impl {nf}"]
   -- the values the snapshot lists now (it only changes in tick / restart, whose events carry a dump)
